@@ -126,6 +126,16 @@ EXPLANATION += (
     "__new__extra_args, and vice versa), as object_new/object_init do.  "
     "Blind spot: what get_attribute itself returns for metaclass-defined or "
     "overlay-provided __new__/__init__ is not decided.")
+# rules/c13_posonly_kw.py (R13.20)
+EXPLANATION += (
+    "  R13.20 (rules/c13_posonly_kw.py) in the stub binder (as R13.1 sees it: "
+    "resolved along the local MRO, self-helpers inlined) the loop that appends "
+    "(name, **kwargs value type) formals - found by its role: it appends an "
+    "expression reading the local bound from <signature>.kwargs_name - must "
+    "iterate the extra keywords AND the passed keywords that name a "
+    "positional-only parameter (classified with R13.1's set vocabulary: "
+    "`extra | posonly-kw`); iterating the extra keywords only is the known "
+    "finding, any other set an analysis error.")
 ASSUMPTIONS += [
     "R13.21: CPython's object_new/object_init (typeobject.c) accept excess "
     "arguments iff the other slot is overridden anywhere in the type's MRO",
@@ -471,13 +481,13 @@ class _Canon:
         return "params"
       return None
     l = r = op = None
-    if isinstance(e, ast.BinOp) and isinstance(e.op, (ast.Sub, ast.BitAnd)):
+    if isinstance(e, ast.BinOp) and isinstance(e.op, (ast.Sub, ast.BitAnd, ast.BitOr)):
       l, r = e.left, e.right
-      op = "diff" if isinstance(e.op, ast.Sub) else "and"
+      op = {ast.Sub: "diff", ast.BitAnd: "and", ast.BitOr: "or"}[type(e.op)]
     elif isinstance(e, ast.Call) and isinstance(e.func, ast.Attribute) and \
-        e.func.attr in ("difference", "intersection") and len(e.args) == 1:
+        e.func.attr in ("difference", "intersection", "union") and len(e.args) == 1:
       l, r = e.func.value, e.args[0]
-      op = "diff" if e.func.attr == "difference" else "and"
+      op = {"difference": "diff", "intersection": "and", "union": "or"}[e.func.attr]
     if op:
       lc = self.set_class(l, stmt, depth + 1)
       rc = self.set_class(r, stmt, depth + 1)
@@ -485,6 +495,8 @@ class _Canon:
         return "extra"
       if op == "diff" and lc == "bound" and rc == "posonly":
         return "bound-nonposonly"
+      if op == "or" and {lc, rc} == {"extra", "posonly-kw"}:
+        return "extra+posonly-kw"
       if op == "and" and {lc, rc} == {"keywords", "posonly"}:
         return "posonly-kw"
       if op == "and" and {lc, rc} == {"keywords", "bound-nonposonly"}:
@@ -1593,6 +1605,10 @@ VARIANTS = [
                 "    bound.update(positional)\n    bound.update(kws)\n    callargs = bound\n")]},
     {"name": "twin-pytd-keyword-names-comprehension", "rule": "R13.1", "file": PF, "expect": "silent",
      "old": "    kws = set(args.namedargs)\n", "new": "    kws = {k for k in args.namedargs}\n"},
+    {"name": "twin-pytd-keyword-binding-in-helper", "rule": "R13.1", "expect": "silent",
+     "edits": [(PF, '    # named args\n    posonly_names = set(self.signature.posonly_params)\n    for name, arg in args.namedargs.items():\n      if name in posonly_names:\n        continue\n      elif name in arg_dict:\n        raise error_types.DuplicateKeyword(self.signature, args, self.ctx, name)\n      else:\n        arg_dict[name] = arg\n    kws = set(args.namedargs)\n    extra_kwargs = kws - {p.name for p in self.pytd_sig.params}\n    if extra_kwargs and not self.pytd_sig.starstarargs:\n      if function.has_visible_namedarg(node, args, extra_kwargs):\n        raise error_types.WrongKeywordArgs(\n            self.signature, args, self.ctx, extra_kwargs\n        )\n    posonly_kwargs = kws & posonly_names\n    # If a function has a **kwargs parameter, then keyword arguments with the\n    # same name as a positional-only argument are allowed, e.g.:\n    #   def f(x, /, **kwargs): ...\n    #   f(0, x=1)  # ok\n    if posonly_kwargs and not self.signature.kwargs_name:\n      raise error_types.WrongKeywordArgs(\n          self.signature, args, self.ctx, posonly_kwargs\n      )\n', '    # named args\n    extra_kwargs = self._bind_keywords(node, args, arg_dict)\n'), (PF, '  def _fill_in_missing_parameters(\n', '  def _bind_keywords(self, node, args, arg_dict):\n    """Binds keywords."""\n    posonly_names = set(self.signature.posonly_params)\n    for name, arg in args.namedargs.items():\n      if name in posonly_names:\n        continue\n      elif name in arg_dict:\n        raise error_types.DuplicateKeyword(self.signature, args, self.ctx, name)\n      else:\n        arg_dict[name] = arg\n    kws = set(args.namedargs)\n    extra_kwargs = kws - {p.name for p in self.pytd_sig.params}\n    if extra_kwargs and not self.pytd_sig.starstarargs:\n      if function.has_visible_namedarg(node, args, extra_kwargs):\n        raise error_types.WrongKeywordArgs(\n            self.signature, args, self.ctx, extra_kwargs\n        )\n    posonly_kwargs = kws & posonly_names\n    # If a function has a **kwargs parameter, then keyword arguments with the\n    # same name as a positional-only argument are allowed, e.g.:\n    #   def f(x, /, **kwargs): ...\n    #   f(0, x=1)  # ok\n    if posonly_kwargs and not self.signature.kwargs_name:\n      raise error_types.WrongKeywordArgs(\n          self.signature, args, self.ctx, posonly_kwargs\n      )\n    return extra_kwargs\n\n  def _fill_in_missing_parameters(\n')]},
+    {"name": "pytd-keyword-binding-in-helper-posonly-ignores-kwargs", "rule": "R13.1", "expect": "fire",
+     "edits": [(PF, '    # named args\n    posonly_names = set(self.signature.posonly_params)\n    for name, arg in args.namedargs.items():\n      if name in posonly_names:\n        continue\n      elif name in arg_dict:\n        raise error_types.DuplicateKeyword(self.signature, args, self.ctx, name)\n      else:\n        arg_dict[name] = arg\n    kws = set(args.namedargs)\n    extra_kwargs = kws - {p.name for p in self.pytd_sig.params}\n    if extra_kwargs and not self.pytd_sig.starstarargs:\n      if function.has_visible_namedarg(node, args, extra_kwargs):\n        raise error_types.WrongKeywordArgs(\n            self.signature, args, self.ctx, extra_kwargs\n        )\n    posonly_kwargs = kws & posonly_names\n    # If a function has a **kwargs parameter, then keyword arguments with the\n    # same name as a positional-only argument are allowed, e.g.:\n    #   def f(x, /, **kwargs): ...\n    #   f(0, x=1)  # ok\n    if posonly_kwargs and not self.signature.kwargs_name:\n      raise error_types.WrongKeywordArgs(\n          self.signature, args, self.ctx, posonly_kwargs\n      )\n', '    # named args\n    extra_kwargs = self._bind_keywords(node, args, arg_dict)\n'), (PF, '  def _fill_in_missing_parameters(\n', '  def _bind_keywords(self, node, args, arg_dict):\n    """Binds keywords."""\n    posonly_names = set(self.signature.posonly_params)\n    for name, arg in args.namedargs.items():\n      if name in posonly_names:\n        continue\n      elif name in arg_dict:\n        raise error_types.DuplicateKeyword(self.signature, args, self.ctx, name)\n      else:\n        arg_dict[name] = arg\n    kws = set(args.namedargs)\n    extra_kwargs = kws - {p.name for p in self.pytd_sig.params}\n    if extra_kwargs and not self.pytd_sig.starstarargs:\n      if function.has_visible_namedarg(node, args, extra_kwargs):\n        raise error_types.WrongKeywordArgs(\n            self.signature, args, self.ctx, extra_kwargs\n        )\n    posonly_kwargs = kws & posonly_names\n    # If a function has a **kwargs parameter, then keyword arguments with the\n    # same name as a positional-only argument are allowed, e.g.:\n    #   def f(x, /, **kwargs): ...\n    #   f(0, x=1)  # ok\n    if posonly_kwargs:\n      raise error_types.WrongKeywordArgs(\n          self.signature, args, self.ctx, posonly_kwargs\n      )\n    return extra_kwargs\n\n  def _fill_in_missing_parameters(\n')]},
     # R13.2
     {"name": "duplicate-keyword-arm-removed", "rule": "R13.2", "file": ERRORS, "expect": "fire",
      "old": "    elif isinstance(error, error_types.DuplicateKeyword):\n      self.duplicate_keyword(stack, error.name, error.bad_call, error.duplicate)\n",
